@@ -166,9 +166,10 @@ class String(Parser):
                 stream.error('<string>')
         nn = 2
 
-        while (stream.peek(nn)[-1].isalpha() or
-               stream.peek(nn)[-1].isdigit() or
-               stream.peek(nn)[-1] in string_okay):
+        while (len(stream.peek(nn)) == nn and
+               (stream.peek(nn)[-1].isalpha() or
+                stream.peek(nn)[-1].isdigit() or
+                stream.peek(nn)[-1] in string_okay)):
             nn += 1
         out = stream.take(n=nn-1)
         output.append(out)
